@@ -21,10 +21,10 @@ sides of the bridge; `Val.ty` is `reflect.TypeOf` (`none` for the nil interface)
   the result), one result → the value itself, otherwise a list.
 
 Numbers: a float64 is `Num.fin m e` (the real number `m·2^e`), `nan` or `inf`.
-Float → integer conversion truncates towards zero when the truncated value is in
-the range of the target kind; otherwise Go leaves the result implementation-defined
-— the model takes it from the oracle `oob` (any function; the correspondence run
-supplies the platform's values) and no theorem about exactness covers that case.
+A number for a parameter of integer kind is converted by truncation towards zero when the truncated value
+is in the range of the kind; otherwise the call is answered with an error (`numberFits`, the range check of
+`Run`) — Go would leave the result of such a conversion implementation-defined. The oracle `oob` of
+`convertNumber` stands for that implementation-defined value; behind the range check it is never consulted.
 `int`, `uint` and `uintptr` are 64 bit wide (amd64/arm64).
 -/
 namespace Ecal.Bridge
@@ -228,8 +228,23 @@ inductive ArgStep where
   | panic
   deriving DecidableEq, Repr
 
-/-- one iteration of the loop body after the too-many check -/
-def checkArg (oob : IntKind → Num → Int) (expected : Ty) (arg : Val) : ArgStep :=
+/-- `numberFits`: can the number be converted into the parameter's type? For the integer kinds (also of a
+    defined type) its truncation towards zero must be in the kind's range; NaN and ±Inf never fit. -/
+def numberFits (x : Num) : Ty → Bool
+  | .int k =>
+    match x.trunc with
+    | some n => k.inRange n
+    | none => false
+  | .named _ u => numberFits x u
+  | _ => true
+
+/-- the argument is a number that does not fit the parameter's integer kind -/
+def outOfRange (expected : Ty) : Val → Bool
+  | .f64 x => !numberFits x expected
+  | _ => false
+
+/-- one iteration of the loop body after the too-many check and the range check -/
+def checkArgCore (oob : IntKind → Num → Int) (expected : Ty) (arg : Val) : ArgStep :=
   -- if float64Arg, ok := arg.(float64); ok { arg = ea.convertNumber(...) }
   let arg := match arg with
     | .f64 x => convertNumber oob x expected
@@ -245,6 +260,11 @@ def checkArg (oob : IntKind → Num → Int) (expected : Ty) (arg : Val) : ArgSt
   -- && expectedType != reflect.TypeOf([]interface{}{})
   else if expected = .list then .accept arg
   else .error
+
+/-- one iteration of the loop body after the too-many check -/
+def checkArg (oob : IntKind → Num → Int) (expected : Ty) (arg : Val) : ArgStep :=
+  -- if !numberFits(float64Arg, expectedType) { return nil, fmt.Errorf("… is out of its range") }
+  if outOfRange expected arg then .error else checkArgCore oob expected arg
 
 inductive Build where
   | ok (fargs : List Val)
@@ -445,7 +465,11 @@ def run (shape : Shape) (oob : IntKind → Num → Int) (t : Target) (args : Lis
 
 inductive Seen where
   | value (r : Ret)
-  | runtimeError            -- a `*util.RuntimeError` (the bridge's error wrapped, catchable by try/except)
+  | runtimeError            -- a `*util.RuntimeError` with a non-nil `Type` (the bridge's error wrapped, or the
+                            -- function's own): what try/except and sinks can inspect (`rtError.Type.Error()`)
+  | brokenRuntimeError      -- a `*util.RuntimeError` whose `Type` is nil handed on as it is: an uncaught call
+                            -- reports it, but try/except (rt_statements.go) and the sink error map
+                            -- (func_provider.go) dereference `Type` and take the interpreter down
   | crash
   deriving DecidableEq, Repr
 
@@ -454,13 +478,15 @@ inductive ErrKind where
   | plain             -- any error value whose `Error()` returns
   | errorPanics       -- `Error()` panics: a nil pointer whose method dereferences it (the typed-nil slip), a broken implementation
   | runtimeError      -- a proper `*util.RuntimeError` / `*util.RuntimeErrorWithDetail`: passed on, `AddTrace` called
-  | nilRuntimeError   -- a nil `*util.RuntimeError` / `*util.RuntimeErrorWithDetail`: `AddTrace` dereferences it
+  | nilRuntimeError   -- a nil `*util.RuntimeError` / `*util.RuntimeErrorWithDetail` (or one whose embedded pointer is nil): `AddTrace` dereferences it
+  | runtimeErrorNoType -- a non-nil runtime error whose `Type` field is nil (`&util.RuntimeError{Detail: "d"}`)
   deriving DecidableEq, Repr
 
 /-- `executeFunction` after `funcObj.Run` returned — the code runs OUTSIDE `Run`'s recover scope:
     `err.Error()` (twice) for an error that is no runtime error, `AddTrace` for one that is.
     `guarded` (regenerated source fact `Gen.C19.errorValueFact`): `Error()` is only called under a
-    recover of its own and nil runtime-error pointers are treated like any other error value. -/
+    recover of its own, and nil runtime-error pointers and runtime errors without a `Type` are treated like any
+    other error value (wrapped into a proper runtime error). -/
 def executeFunction (guarded : Bool) (kind : Val → ErrKind) : Outcome → Seen
   | .done r none => .value r
   | .done _ (some (.bridge _)) => .runtimeError      -- fmt.Errorf values made by the adapter
@@ -471,7 +497,22 @@ def executeFunction (guarded : Bool) (kind : Val → ErrKind) : Outcome → Seen
     | .runtimeError => .runtimeError
     | .errorPanics => if guarded then .runtimeError else .crash
     | .nilRuntimeError => if guarded then .runtimeError else .crash
+    | .runtimeErrorNoType => if guarded then .runtimeError else .brokenRuntimeError
   | .escaped => .crash
+
+/-- what a `try { … } except e { … }` around the call makes of it (rt_statements.go reads
+    `rtError.Type.Error()` to select the except clause) -/
+inductive Caught where
+  | value (r : Ret)
+  | handled               -- the except block ran
+  | crash
+  deriving DecidableEq, Repr
+
+def tryExcept : Seen → Caught
+  | .value r => .value r
+  | .runtimeError => .handled
+  | .brokenRuntimeError => .crash
+  | .crash => .crash
 
 end Ecal.Bridge
 
@@ -520,9 +561,9 @@ def runPlugin (viaAdapter : Bool) (shape : Shape) (oob : IntKind → Num → Int
         (match vals.drop 1 with | e :: _ => if e = .nil then none else some (.func e) | [] => none)
 
 /-- property-level notion "the argument fits the parameter": an ECAL number for a numeric
-    parameter, or a (non-NULL) value of exactly the parameter's type -/
+    parameter (in the range of an integer kind), or a (non-NULL) value of exactly the parameter's type -/
 def Fits (p : Ty) (a : Val) : Prop :=
-  (∃ x, a = .f64 x ∧ p.isNumeric = true) ∨ (a.ty = some p ∧ ∀ x, a ≠ .f64 x)
+  (∃ x, a = .f64 x ∧ p.isNumeric = true ∧ numberFits x p = true) ∨ (a.ty = some p ∧ ∀ x, a ≠ .f64 x)
 /-- every argument fits its parameter, and there are exactly as many -/
 def AllFit : List Ty → List Val → Prop
   | [], [] => True
